@@ -5,6 +5,9 @@ from . import common as C
 from . import containers as K
 from . import structure as S
 from . import machine as MM
+from . import platform as P
+from . import gen_machine as G
+import re
 
 
 class Context:
@@ -199,12 +202,160 @@ def machine_run(prop, streams=("random",)):
     return f
 
 
+def c10_run(ctx):
+    container_run(["tasklist"])(ctx)
+    machine_run("C10")(ctx)
+
+
+def neutral_projection(lines):
+    out = []
+    for l in lines:
+        if l.startswith("log "):
+            continue
+        l = re.sub(r" (plan|prev|bytes)=\S*( \S+\])?", "", re.sub(r"plan=\[[^\]]*\]", "plan=_", l))
+        l = re.sub(r" (plan|prev|bytes)=\S+", "", l)
+        out.append(l)
+    return out
+
+
+def c19_run(ctx):
+    # (i) compile matrix
+    if ctx.thorough:
+        comps, stds = ["g++", "clang++-14"], ["c++11", "c++14", "c++17", "c++20"]
+        ok, fails, n = P.compile_matrix(comps, stds)
+    else:
+        ok, fails, n = P.compile_matrix(["g++"], ["c++11"])
+        ok2, fails2, n2 = P.compile_matrix(["clang++-14"], ["c++20"])
+        ok, fails, n = ok + ok2, fails + fails2, n + n2
+    ctx.extra["compile_matrix"] = {"compiled": n, "ok": ok}
+    ctx.stats["evaluations"] += n
+    for f in fails[:3]:
+        ctx.failures.append({"what": "switch combination does not compile: %s -std=%s %s" % (f["compiler"], f["std"], f["switches"]),
+                             "errors": f["errors"], "replay_cmd": f["replay_cmd"], "failing_combinations": len(fails)})
+    # (iii) amalgamation
+    j = P.join_check()
+    ctx.extra["amalgamation_identical"] = j is None
+    if j:
+        ctx.failures.append(j)
+    # (ii) feature neutrality: the same feature-free scenario under every feature subset
+    base = dict(n=3, L=3, head=True, payload="u8", ctx="ref")
+    variants = []
+    import itertools
+    flags = list(itertools.product([False, True], repeat=4))
+    if not ctx.thorough:
+        flags = [f for k, f in enumerate(flags) if k in (0, 1, 2, 4, 8, 15, 6, 9)]
+    extras = [(), ("FFSM2_ENABLE_STRUCTURE_REPORT",), ("FFSM2_ENABLE_DEBUG_STATE_TYPE",), ("FFSM2_DISABLE_TYPEINDEX",),
+              ("FFSM2_ENABLE_STRUCTURE_REPORT", "FFSM2_ENABLE_DEBUG_STATE_TYPE", "FFSM2_DISABLE_TYPEINDEX")]
+    for k, (pl, hi, se, lg) in enumerate(flags):
+        variants.append(G.Config(plans=pl, history=hi, serial=se, log=lg, extra_defs=extras[k % len(extras)] if ctx.thorough or k < 5 else (), **base))
+    gen_cfg = G.Config(plans=False, history=False, serial=False, log=False, **base)
+    cases = [MM.gen_case(ctx.rng, gen_cfg, "n%d" % k, ctx.rng.randint(8, 20), {"menu": {"save": 0, "load": 0, "succeed": 0, "fail": 0, "planAppend": 0,
+             "planClear": 0, "planRemove": 0, "replayTransition": 0, "attachLogger": 0, "replayEnter": 0}}) for k in range(120 if ctx.thorough else 40)]
+    with ThreadPoolExecutor(max_workers=C.NCPU) as ex:
+        built = list(ex.map(MM.build, variants))
+    ref = None
+    for v, (exe, logtxt) in zip(variants, built):
+        if exe is None:
+            ctx.failures.append({"what": "machine harness does not compile under " + v.cfg_line()[:100] + " " + str(v.extra_defs),
+                                 "log": "\n".join([l for l in logtxt.split("\n") if "error" in l][:8])})
+            continue
+        vc = [[c[0], v.cfg_line()] + c[2:] for c in cases]
+        rc_i, ci, rc_m, cm = MM.run_cases(exe, vc)
+        ctx.stats["programs"] = ctx.stats.get("programs", 0) + 1
+        pi = [neutral_projection(x) for x in ci]
+        pm = [neutral_projection(x) for x in cm]
+        ctx.stats["evaluations"] += len(ci)
+        for x in pi:
+            ctx.stats["distinct"].add(hash(tuple(x)))
+        if ref is None:
+            ref = (v, pi)
+        else:
+            for k, (a, b) in enumerate(zip(ref[1], pi)):
+                if a != b:
+                    j = next((q for q in range(min(len(a), len(b))) if a[q] != b[q]), 0)
+                    ctx.failures.append({"what": "enabling unused features changes observable behaviour", "base": ref[0].cfg_line()[:110],
+                                         "variant": v.cfg_line()[:110] + " " + str(v.extra_defs), "case": vc[k], "base_trace": a[max(0, j - 2):j + 2], "variant_trace": b[max(0, j - 2):j + 2]})
+                    break
+        for k, (a, b) in enumerate(zip(pi, pm)):
+            if a != b:
+                ctx.disagreements.append({"cfg": v.cfg_line()[:110], "case": vc[k][0]})
+                break
+    ctx.extra["feature_variants"] = len(variants)
+    if len(ctx.samples) < 2:
+        ctx.samples.append({"ops": [l for l in cases[0] if l.startswith("op ")][:12], "variants": [v.cfg_line()[40:110] for v in variants[:4]]})
+    C.prune_cache()
+
+
+def c18_run(ctx):
+    # sanitizer builds of both harnesses on the same kind of cases
+    caps = sorted({c for e in K.QUICK_CAPS for c in K.QUICK_CAPS[e]})
+    exe, logtxt = K.build(caps, sanitize=True)
+    if exe is None:
+        ctx.failures.append({"what": "sanitized container harness does not compile", "log": logtxt[-1200:]})
+    else:
+        for e in ("bitstream", "bitarray", "static", "dynamic", "tasklist"):
+            mine = K.QUICK_CAPS[e]
+            gen = {"bitstream": lambda: K.gen_bitstream(ctx.rng, mine, 6, exhaustive=ctx.thorough),
+                   "bitarray": lambda: K.gen_bitarray(ctx.rng, mine, 10, 40), "static": lambda: K.gen_static(ctx.rng, mine, 4),
+                   "dynamic": lambda: K.gen_dynamic(ctx.rng, mine, 4), "tasklist": lambda: K.gen_tasklist(ctx.rng, mine, 20, 60)}[e]
+            cases = gen()
+            rc, out = K.run_engine(exe, e, cases)
+            ctx.stats["evaluations"] += len(cases)
+            ctx.stats["engines"][e + "+asan+ubsan"] = len(cases)
+            if rc != 0:
+                tail = [l for l in out if "runtime error" in l or "ERROR: AddressSanitizer" in l or "SUMMARY" in l][:4]
+                done = K.split_outputs(cases, out)
+                bad = next((c for c, o in zip(cases, done) if len(o) < len(c)), None)
+                ctx.failures.append({"what": "sanitizer abort in the %s engine: %s" % (e, tail), "case": bad})
+    cfgs = MM.thorough_configs(ctx.rng) if ctx.thorough else MM.quick_configs(ctx.rng)
+    with ThreadPoolExecutor(max_workers=C.NCPU) as ex:
+        built = list(ex.map(lambda c: MM.build(c, sanitize=True), cfgs))
+    for cfg, (exe, logtxt) in zip(cfgs, built):
+        if exe is None:
+            ctx.failures.append({"what": "sanitized machine harness does not compile: " + cfg.cfg_line()[:100], "log": "\n".join([l for l in logtxt.split("\n") if "error" in l][:8])})
+            continue
+        cases = [MM.gen_case(ctx.rng, cfg, "s%d" % k, ctx.rng.randint(8, 24)) for k in range(200 if ctx.thorough else 50)]
+        cases += [MM.pingpong_case(ctx.rng, cfg, "pp%d" % k) for k in range(8)]
+        rc_i, ci, rc_m, cm = MM.run_cases(exe, cases)
+        ctx.stats["evaluations"] += len(ci)
+        ctx.stats["programs"] = ctx.stats.get("programs", 0) + 1
+        for a in ci:
+            if MM.lifecycle_count(a) > 2:
+                ctx.stats["distinct"].add(hash(tuple(a[1:])))
+        if rc_i != 0 or len(ci) != len(cases):
+            bad = cases[len(ci) - 1] if 0 < len(ci) <= len(cases) else None
+            rc2, out2 = C.run([exe], input="\n".join(bad or []) + "\n", timeout=120)
+            tail = [l for l in out2.split("\n") if "runtime error" in l or "ERROR: AddressSanitizer" in l or "SUMMARY" in l][:4]
+            mc = MM.minimise_case(exe, bad, "C18", lambda c: C.run([exe], input="\n".join(c) + "\n", timeout=120)[0] != 0) if bad else None
+            ctx.failures.append({"what": "sanitizer abort in the machine harness: %s" % tail, "cfg": cfg.cfg_line(), "minimal_case": mc})
+            continue
+        for a, b in zip(ci, cm):
+            if a != b:
+                ctx.disagreements.append({"cfg": cfg.cfg_line()[:100], "case": a[0]})
+                break
+    a = P.alloc_probe()
+    ctx.extra["allocation_probe"] = "0 allocations" if a is None else a["what"]
+    if a:
+        ctx.failures.append(a)
+    if ctx.thorough:
+        sc = P.symbol_scan()
+        ctx.extra["symbol_scan"] = "no allocation symbol referenced" if sc is None else sc["what"]
+        if sc:
+            ctx.failures.append(sc)
+    if len(ctx.samples) < 2:
+        ctx.samples.append({"sanitizers": "-fsanitize=address,undefined -fno-sanitize-recover=all", "configs": [c.cfg_line()[:90] for c in cfgs[:3]]})
+    C.prune_cache()
+
+
 TV = "translation_validation"
 REGISTRY = {
     "C13": Spec("FFSM2.Props.C13", ["bitwidth", "contain", "typebits", "buffers"], container_run(["bitstream"])),
     "C14": Spec("FFSM2.Props.C14", ["halving", "find", "ids"], c14_run),
     "C15": Spec("FFSM2.Props.C15", [], c15_run),
     "C20": Spec("FFSM2.Props.C20", ["contain", "buffers"], container_run(["bitarray", "static", "dynamic"])),
+    "C10": Spec(None, ["config", "ids"], c10_run, level=TV),
+    "C18": Spec(None, [], c18_run, level="other", explanation="Partial by nature: a theorem about a model cannot exhibit heap allocation or undefined behaviour of compiled C++. Executed here: both correspondence harnesses rebuilt with ASan+UBSan (-fno-sanitize-recover=all) and run on generated in-contract histories (payloads of alignment 1/8/16, plans at full capacity, n=1..7 quick / up to 64 thorough); an allocation probe that wraps malloc/calloc/realloc/free and operator new/delete around a scenario touching the whole API; thorough: nm -u symbol scan. The model-side index/range/alignment theorems are listed in DESIGN.md §9 C18."),
+    "C19": Spec(None, [], c19_run, level="other", explanation="Partial by nature: 'compiles under every switch/standard/compiler' and 'the shipped header equals the amalgamation' are facts about files and compilers. Executed here: -fsyntax-only of an API-instantiating TU under all 256 switch combinations + FFSM2_ENABLE_ALL (quick: g++ C++11 and clang++ C++20; thorough: 2 compilers x 4 standards); tools/join.py re-run on a scratch copy and byte-compared; a feature-free scenario run under 8 (thorough 16) feature subsets + STRUCTURE_REPORT/DEBUG_STATE_TYPE/DISABLE_TYPEINDEX whose projected traces must be identical and equal to the model's."),
     "C01": Spec(None, ["ids"], machine_run("C01"), level=TV),
     "C02": Spec(None, ["ids", "config"], machine_run("C02", ("random", "pingpong")), level=TV),
     "C03": Spec(None, ["ids", "config"], machine_run("C03", ("random", "pingpong")), level=TV),
